@@ -198,6 +198,11 @@ def one_run(cfg, wd, tag, perturb=None, backend="h5", diagnostic=False, progress
         perturb()
     rnd = random.Random(cfg["tseed"])
     target, tk, d = make_target(rnd, D, cfg["d"])
+    if cfg.get("stiff"):
+        # a narrow target and a step far too long for it: the first proposals are rejected and the additive update drives
+        # the step size below zero, i.e. to its floor, within a proposal or two
+        d = cfg["d"]
+        target, tk = D.Normal(numpy.zeros((d, 1)), numpy.full((d, 1), 2.0 ** -12)), "stiff"
     seed = cfg["seed"] if seed is None else seed
     kw = dict(proposals=proposals or cfg["P"], online_thinning=cfg["t"], overwrite_existing_file=True, disable_progressbar=not progressbar,
               diagnostic_mode=diagnostic, autotuning=cfg["tune"], initial_model=numpy.zeros((d, 1)) + (1.0 if tk == "himmelblau" else 0.0))
@@ -298,6 +303,12 @@ def run(tier, seed):
     try:
         for i in range(n):
             cfg = gen_cfg(rnd)
+            if i < 2 or (cfg["tune"] and rnd.random() < 0.3):
+                # tuning under stress: a step far too long for the target, early proposals rejected, the update drives the step to its floor
+                cfg["tune"], cfg["stepsize"], cfg["stiff"] = True, rnd.choice([0.5, 0.25]), True
+                if i < 2:
+                    cfg["kind"] = ("rwmh", "hmc")[i]
+                dist["tuning_to_the_floor"] = dist.get("tuning_to_the_floor", 0) + 1
             dist["configs"] += 1
             try:
                 base = one_run(cfg, wd, "base")
@@ -339,7 +350,8 @@ def run(tier, seed):
             if longer[:, :base.shape[1]].tobytes() != base.tobytes():
                 violations.append(Violation("not-a-prefix", f"run with {cfg['P']} proposals is not a prefix of the run with {cfg['P'] * 2} proposals (same seed)", {"cfg": cfg}))
             otherseed = one_run(cfg, wd, "seed2", seed=cfg["seed"] + 1)
-            if otherseed.tobytes() == base.tobytes():
+            moved = base.shape[1] > 1 and any(base[:, j].tobytes() != base[:, 0].tobytes() for j in range(1, base.shape[1]))
+            if otherseed.tobytes() == base.tobytes() and moved:        # a chain that never left its start says nothing about the seed
                 violations.append(Violation("seed-ignored", "two different seeds give identical chains", {"cfg": cfg}))
             if i < 2:
                 samples.append({"cfg": cfg, "variants": [v[0] for v in variants], "columns": int(base.shape[1])})
